@@ -12,6 +12,7 @@ Opts(t) == { <<>>,
              <<R(t, FALSE, 1, t), R(t, FALSE, 9, 50 + t)>>,
              <<R(t, TRUE, 2, 100), R(t, FALSE, 3, t)>>,
              <<E("bad", 1), R(t, FALSE, 2, t)>>,
+             <<E("bad", 5), R(t, FALSE, 6, t)>>,
              <<R(t, FALSE, 11, t)>> }
 SmallScripts == {s \in [MinTTL..MaxTTL -> UNION {Opts(t) : t \in MinTTL..MaxTTL}] : \A t \in MinTTL..MaxTTL : s[t] \in Opts(t)}
 FaultOpts(t) == { <<E("fatal", 2)>>, <<E("nil", 2)>>, <<E("sendfail", 0)>>, <<R(0, FALSE, 1, 9)>>, <<R(MaxTTL + 1, TRUE, 1, 9)>>,
